@@ -463,3 +463,106 @@ def _always_returns(stmts: List[ast.stmt]) -> bool:
         if isinstance(s, ast.If) and s.orelse and _always_returns(s.body) and _always_returns(s.orelse):
             return True
     return False
+
+
+# ------------------------------------------------------------------------------------------------------------------ hoisted chains
+def _chain(e: ast.AST) -> bool:
+    """An attribute / subscript chain over names and constants with at least one step (`self.a.b`, `agent.reward_function`,
+    `self.history[timestep].response`)."""
+    return _pure(e) and isinstance(e, (ast.Attribute, ast.Subscript))
+
+
+def dehoist_chains(tree: ast.AST) -> int:
+    """Normal form: a local that merely names an attribute chain (`rf = agent.reward_function` ... `rf.total += rf.current`) is
+    replaced by the chain at every use and the binding is dropped - the spelling with and without the local are the same program as
+    long as nothing rebinds the local, the names in the chain, or the chain itself in between.  Conditions (all syntactic, per
+    function): the local is bound exactly once, by a plain assignment of a chain, is not a parameter, is never loaded inside a nested
+    function / lambda / comprehension; every load comes after the binding in the same block or deeper; no name occurring in the chain
+    is (re)bound at or after the binding; no assignment, augmented assignment or `del` in the function targets the chain or a prefix
+    of it."""
+    n_done = 0
+    for fn in [f for f in ast.walk(tree) if isinstance(f, (ast.FunctionDef, ast.AsyncFunctionDef))]:
+        own = list(_own_nodes(fn))
+        own_ids = {id(x) for x in own}
+        stores: Dict[str, List[ast.AST]] = {}
+        for x in own:
+            if isinstance(x, ast.Name) and not isinstance(x.ctx, ast.Load):
+                stores.setdefault(x.id, []).append(x)
+        params = {a.arg for a in fn.args.posonlyargs + fn.args.args + fn.args.kwonlyargs} | (
+            {fn.args.vararg.arg} if fn.args.vararg else set()) | ({fn.args.kwarg.arg} if fn.args.kwarg else set())
+        if any(isinstance(x, (ast.Global, ast.Nonlocal)) for x in own):
+            continue
+        # names loaded in nested scopes (closures run later) or bound by comprehensions
+        nested_loads: Set[str] = set()
+        for x in ast.walk(fn):
+            if x is fn:
+                continue
+            if isinstance(x, (ast.FunctionDef, ast.AsyncFunctionDef, ast.Lambda)):
+                nested_loads |= {y.id for y in ast.walk(x) if isinstance(y, ast.Name)}
+        attr_store_texts: List[Tuple[str, int]] = []
+        for x in own:
+            tg: List[ast.AST] = []
+            if isinstance(x, ast.Assign):
+                tg = list(x.targets)
+            elif isinstance(x, (ast.AugAssign, ast.AnnAssign)):
+                tg = [x.target]
+            elif isinstance(x, ast.Delete):
+                tg = list(x.targets)
+            elif isinstance(x, (ast.For, ast.AsyncFor)):
+                tg = [x.target]
+            for t in tg:
+                for y in ([t] if not isinstance(t, (ast.Tuple, ast.List)) else list(t.elts)):
+                    if isinstance(y, (ast.Attribute, ast.Subscript)):
+                        attr_store_texts.append((ast.unparse(y), getattr(x, "lineno", 0)))
+        changed = True
+        while changed:
+            changed = False
+            for lst in _stmt_lists(fn):
+                for i, st in enumerate(lst):
+                    tgt = st.targets[0] if isinstance(st, ast.Assign) and len(st.targets) == 1 else (
+                        st.target if isinstance(st, ast.AnnAssign) and st.value is not None else None)
+                    if not isinstance(tgt, ast.Name) or not _chain(st.value):
+                        continue
+                    x = tgt.id
+                    if x in params or x in nested_loads or len(stores.get(x, [])) != 1:
+                        continue
+                    chain = st.value
+                    ctext = ast.unparse(chain)
+                    names_in_chain = {y.id for y in ast.walk(chain) if isinstance(y, ast.Name)}
+                    if x in names_in_chain:
+                        continue
+                    if any(getattr(s, "lineno", 0) >= st.lineno for nm in names_in_chain for s in stores.get(nm, [])):
+                        continue
+                    if any(ctext == t or ctext.startswith(t + ".") or ctext.startswith(t + "[") for t, _ in attr_store_texts):
+                        continue
+                    # every load after the binding, inside the later siblings of this block
+                    later = {id(y) for s2 in lst[i + 1:] for y in ast.walk(s2)}
+                    loads = [y for y in own if isinstance(y, ast.Name) and y.id == x and isinstance(y.ctx, ast.Load)]
+                    if not loads or any(id(y) not in later for y in loads):
+                        continue
+                    # comprehension scopes: a load inside a comprehension is evaluated in place, fine; but the chain's names must not
+                    # be shadowed by comprehension targets
+                    comp_bound = {z.id for s2 in lst[i + 1:] for c in ast.walk(s2) if isinstance(c, ast.comprehension)
+                                  for z in ast.walk(c.target) if isinstance(z, ast.Name)}
+                    if comp_bound & names_in_chain:
+                        continue
+
+                    class R(ast.NodeTransformer):
+                        def visit_Name(self, node):
+                            if node.id == x and isinstance(node.ctx, ast.Load):
+                                return ast.copy_location(copy.deepcopy(chain), node)
+                            return node
+
+                    for j in range(i + 1, len(lst)):
+                        lst[j] = R().visit(lst[j])
+                    del lst[i]
+                    if not lst:
+                        lst.append(ast.copy_location(ast.Pass(), st))
+                    stores.pop(x, None)
+                    n_done += 1
+                    changed = True
+                    own = list(_own_nodes(fn))
+                    break
+                if changed:
+                    break
+    return n_done
